@@ -279,6 +279,15 @@ def shard(a):
             elif lay is not None and lay[0] is not None:
                 picks += gen.leap_numbers(name, (lay[0], lay[2], lay[3]))[:4]
             sent = 0
+            for x in gen.literal_probes(name):
+                res.hist['prefilter:is_valid-calls'] += 1
+                o = core.out(m.is_valid, x)
+                if (o[0] != 'ok' or o[1] not in (True, False)) and sent < 6:
+                    sent += 1
+                    res.hist['prefilter:texts-sent-to-the-application'] += 1
+                    qs = urllib.parse.urlencode({'number': x})
+                    for hdr in (None, 'XMLHttpRequest'):
+                        check_one(app, qs, hdr, res, {'qs': qs, 'header': hdr})
             for w in picks:
                 if len(w) > 40:
                     continue
